@@ -42,12 +42,23 @@ def _edges(tree, parent=None, out=None):
     return out
 
 
-def _literal_key_count(node):
+def _literal_key_count(node, resolve=None, depth=0):
+    """Keys written in the literal (a repeated sibling key is counted twice here and once in the evaluated dict).  A branch given
+    by name (a class attribute holding a dict literal) is counted through `resolve`; anything else makes the count unknown."""
     n = 0
     if isinstance(node, ast.Dict):
+        if any(k is None for k in node.keys):
+            raise AnalysisError('the hierarchy literal uses ** unpacking: its written keys are not counted')
         n += len(node.keys)
         for v in node.values:
-            n += _literal_key_count(v)
+            n += _literal_key_count(v, resolve, depth)
+    elif isinstance(node, (ast.Name, ast.Attribute)) and resolve is not None and depth < 6:
+        lit = resolve(node)
+        if lit is None:
+            raise AnalysisError(f'the hierarchy literal takes a branch from `{ast.unparse(node)}`, which is not a dict literal: not counted')
+        n += _literal_key_count(lit, resolve, depth + 1)
+    elif not isinstance(node, ast.Dict):
+        raise AnalysisError(f'the hierarchy literal holds `{ast.unparse(node)[:40]}`: not a dict literal, its keys are not counted')
     return n
 
 
@@ -70,7 +81,11 @@ def r1_forest(ctx):
     def leaves_ok(t):
         return all(isinstance(v, dict) and leaves_ok(v) for v in t.values())
     ctx.check(leaves_ok(tree), 'R1', at, fn, 'hierarchy-leaf-shape', 'every subtree (leaves included) is a dict')
-    ctx.check(_literal_key_count(node) == len(nodes), 'R1', at, fn, 'hierarchy-duplicate-sibling',
+    def resolve_branch(n_):
+        name_ = n_.id if isinstance(n_, ast.Name) else (n_.attr if isinstance(n_.value, ast.Name) and n_.value.id in ('cls', mapper.name) else None)
+        r_ = ctx.prog.find_class_attr(mapper, name_) if name_ else None
+        return r_[0] if r_ is not None and isinstance(r_[0], ast.Dict) else None
+    ctx.check(_literal_key_count(node, resolve_branch) == len(nodes), 'R1', at, fn, 'hierarchy-duplicate-sibling',
               f'no key is repeated among siblings in the literal ({len(nodes)} keys)')
     for m in members:
         k = nodes.count(m)
@@ -613,6 +628,11 @@ def r5_selection(ctx):
     c2 = mt.params[1]
     okd = len(rets) == 1 and F.same(ctx, mt, rets[0][1],
                                     f'cls._match({c2}, include=cls._validate_include(include), exclude=cls._validate_exclude(exclude))')
+    if not okd and len(rets) == 1 and isinstance(rets[0][1], ast.Call) and src(rets[0][1].func) == 'cls._match':
+        b_m = F.bind_args(rets[0][1], m, True)
+        if F.is_name(b_m.get(m.params[1]), c2) and {src(b_m.get('include')), src(b_m.get('exclude'))} <= {'include', 'exclude'}:
+            # still a delegation with the same category; where the selection is normalised moved (valid() does it as well)
+            raise AnalysisError(f'{mt.loc}: match hands include/exclude to _match unnormalised; whether _match / valid normalise them is not followed')
     ctx.check(okd, 'R5', mt.loc, mt.qualname, 'match-delegation',
               'match normalises include/exclude and delegates to _match with the same category')
     # is_child reflexive and delegating with unswapped arguments
